@@ -1,1 +1,365 @@
+// Package simrt is the seeded task scheduler used by the concurrency checks.
+//
+// The code under test is an instrumented copy of /repo (see /verif/instrument):
+// every Lock/RLock/Unlock/RUnlock call is routed through the wrappers below and
+// simrt.Yield(site) is inserted before every statement of the anchored files
+// that touches shared state.  Registered tasks are real goroutines, exactly one
+// of which runs at a time; at every yield point and lock acquisition the
+// scheduler's Choose function (driven by the run's PRNG or by a recorded
+// schedule) decides who runs next.  The real mutexes remain the only lock
+// state (TryLock): if a change to /repo drops a Lock() call there simply is no
+// lock, and the scheduler interleaves inside.
+//
+// The hand-off between scheduler and tasks uses one private pipe per task and
+// raw read/write system calls inside //go:norace functions, which the race
+// detector does not treat as synchronisation: its happens-before graph then
+// contains only the code's own synchronisation, and a data race is reported
+// deterministically under the chosen schedule.  Scheduler state lives in plain
+// slices and struct fields touched only inside //go:norace functions (no Go
+// maps, no closures: runtime map routines and closure bodies are instrumented
+// regardless of the pragma).
 package simrt
+
+import (
+	"fmt"
+	"reflect"
+	"runtime"
+	"sync"
+	"syscall"
+	"unsafe"
+)
+
+type pipe struct{ r, w int }
+
+func newPipe() pipe {
+	var p [2]int
+	if err := syscall.Pipe(p[:]); err != nil {
+		panic(err)
+	}
+	return pipe{p[0], p[1]}
+}
+
+//go:norace
+func (p pipe) wait() byte {
+	var b [1]byte
+	for {
+		n, _, e := syscall.Syscall(syscall.SYS_READ, uintptr(p.r), uintptr(unsafe.Pointer(&b[0])), 1)
+		if e == syscall.EINTR {
+			continue
+		}
+		if n == 1 {
+			return b[0]
+		}
+		panic(fmt.Sprint("simrt: pipe read failed ", n, e))
+	}
+}
+
+//go:norace
+func (p pipe) signal(v byte) {
+	b := [1]byte{v}
+	for {
+		n, _, e := syscall.Syscall(syscall.SYS_WRITE, uintptr(p.w), uintptr(unsafe.Pointer(&b[0])), 1)
+		if e == syscall.EINTR {
+			continue
+		}
+		if n == 1 {
+			return
+		}
+		panic(fmt.Sprint("simrt: pipe write failed ", n, e))
+	}
+}
+
+func (p pipe) close() { syscall.Close(p.r); syscall.Close(p.w) }
+
+const (
+	stRunnable = iota
+	stBlocked
+	stDone
+)
+
+type task struct {
+	id     int
+	p      pipe
+	state  int
+	waitOn uintptr
+	site   int
+	fn     func()
+	panicV interface{}
+}
+
+// Chooser decides which of the enabled tasks runs next (returns an index into enabled).
+type Chooser interface {
+	Choose(step int, enabled []int, sites []int) int
+}
+
+// Sched is one scheduled execution.
+type Sched struct {
+	tasks    []*task
+	back     pipe
+	goids    []int64
+	ch       Chooser
+	Steps    int
+	Switches int
+	Trace    []int32 // task chosen at each decision with more than one enabled task
+	TrSites  []int32 // site of the chosen task at those decisions
+	MaxSteps int
+	Panics   []interface{}
+	last     int
+	seq      int64
+}
+
+var cur *Sched // one simulation at a time per process
+
+//go:norace
+func goid() int64 {
+	var buf [40]byte
+	n := runtime.Stack(buf[:], false)
+	var id int64
+	for i := 10; i < n; i++ { // "goroutine 123 ["
+		c := buf[i]
+		if c < '0' || c > '9' {
+			break
+		}
+		id = id*10 + int64(c-'0')
+	}
+	return id
+}
+
+//go:norace
+func me() *task {
+	s := cur
+	if s == nil {
+		return nil
+	}
+	g := goid()
+	for i := 0; i < len(s.goids); i++ {
+		if s.goids[i] == g {
+			return s.tasks[i]
+		}
+	}
+	return nil
+}
+
+// Now returns the scheduler's global step counter (event sequence number);
+// 0 outside a simulation.
+//
+//go:norace
+func Now() int64 {
+	if s := cur; s != nil {
+		return int64(s.Steps)
+	}
+	return 0
+}
+
+// Stamp returns a fresh event sequence number (strictly increasing in real
+// execution order: only one task runs at a time).  Used for invoke/return
+// stamps of recorded histories.
+//
+//go:norace
+func Stamp() int64 {
+	if s := cur; s != nil {
+		s.seq++
+		return s.seq
+	}
+	return 0
+}
+
+// Run executes fns as tasks under the scheduler.  It returns an error for a
+// deadlock among instrumented locks or when the step cap is hit.
+//
+//go:norace
+func Run(ch Chooser, maxSteps int, fns ...func()) (*Sched, error) {
+	s := &Sched{back: newPipe(), ch: ch, MaxSteps: maxSteps, last: -1}
+	defer s.back.close()
+	var wg sync.WaitGroup
+	reg := newPipe()
+	defer reg.close()
+	for i, fn := range fns {
+		s.tasks = append(s.tasks, &task{id: i, p: newPipe(), fn: fn})
+		s.goids = append(s.goids, 0)
+	}
+	s.Panics = make([]interface{}, len(fns))
+	cur = s
+	for _, t := range s.tasks {
+		wg.Add(1)
+		go s.taskMain(t, reg, &wg)
+		reg.wait()
+	}
+	err := s.loop()
+	if err == nil {
+		wg.Wait()
+	}
+	cur = nil
+	for _, t := range s.tasks {
+		s.Panics[t.id] = t.panicV
+		if err == nil {
+			t.p.close()
+		}
+	}
+	return s, err
+}
+
+//go:norace
+func (s *Sched) taskMain(t *task, reg pipe, wg *sync.WaitGroup) {
+	defer wg.Done()
+	s.goids[t.id] = goid()
+	reg.signal(1)
+	t.p.wait()
+	defer s.finish(t)
+	t.fn()
+}
+
+//go:norace
+func (s *Sched) finish(t *task) {
+	if r := recover(); r != nil {
+		t.panicV = r
+	}
+	t.state = stDone
+	s.back.signal(byte(t.id))
+}
+
+//go:norace
+func (s *Sched) loop() error {
+	en := make([]int, 0, len(s.tasks))
+	sites := make([]int, 0, len(s.tasks))
+	for {
+		en, sites = en[:0], sites[:0]
+		alive := 0
+		for _, t := range s.tasks {
+			if t.state == stDone {
+				continue
+			}
+			alive++
+			if t.state == stRunnable {
+				en = append(en, t.id)
+				sites = append(sites, t.site)
+			}
+		}
+		if alive == 0 {
+			return nil
+		}
+		if len(en) == 0 {
+			return fmt.Errorf("deadlock: all %d live tasks are blocked on instrumented locks", alive)
+		}
+		if s.Steps >= s.MaxSteps {
+			return fmt.Errorf("step cap (%d) reached", s.MaxSteps)
+		}
+		k := 0
+		if len(en) > 1 {
+			k = s.ch.Choose(s.Steps, en, sites)
+			if k < 0 || k >= len(en) {
+				k = 0
+			}
+			s.Trace = append(s.Trace, int32(en[k]))
+			s.TrSites = append(s.TrSites, int32(sites[k]))
+		}
+		t := s.tasks[en[k]]
+		if s.last >= 0 && s.last != t.id {
+			s.Switches++
+		}
+		s.last = t.id
+		s.Steps++
+		t.p.signal(1)
+		s.back.wait()
+	}
+}
+
+// Yield is a scheduling point.
+//
+//go:norace
+func Yield(site int) {
+	t := me()
+	if t == nil {
+		return
+	}
+	t.site = site
+	cur.back.signal(byte(t.id))
+	t.p.wait()
+}
+
+//go:norace
+func (s *Sched) wake(addr uintptr) {
+	for _, o := range s.tasks {
+		if o.state == stBlocked && o.waitOn == addr {
+			o.state = stRunnable
+		}
+	}
+}
+
+type tryLocker interface {
+	TryLock() bool
+	Lock()
+	Unlock()
+}
+type tryRLocker interface {
+	TryRLock() bool
+	RLock()
+	RUnlock()
+}
+
+// resolve turns &expr (expr being a mutex, a pointer to one, or a struct
+// embedding one) into something with the locker methods plus a stable address.
+func resolve(x interface{}) (interface{}, uintptr) {
+	v := reflect.ValueOf(x)
+	if v.Kind() == reflect.Ptr && v.Elem().Kind() == reflect.Ptr {
+		v = v.Elem()
+	}
+	return v.Interface(), v.Pointer()
+}
+
+//go:norace
+func blockOn(t *task, addr uintptr) {
+	t.state = stBlocked
+	t.waitOn = addr
+	cur.back.signal(byte(t.id))
+	t.p.wait()
+}
+
+// Lock replaces X.Lock() in instrumented code.
+func Lock(x interface{}, site int) {
+	l, addr := resolve(x)
+	t := me()
+	if t == nil {
+		l.(tryLocker).Lock()
+		return
+	}
+	Yield(site)
+	for !l.(tryLocker).TryLock() {
+		blockOn(t, addr)
+	}
+}
+
+// RLock replaces X.RLock().
+func RLock(x interface{}, site int) {
+	l, addr := resolve(x)
+	t := me()
+	if t == nil {
+		l.(tryRLocker).RLock()
+		return
+	}
+	Yield(site)
+	for !l.(tryRLocker).TryRLock() {
+		blockOn(t, addr)
+	}
+}
+
+// Unlock replaces X.Unlock().
+func Unlock(x interface{}, site int) {
+	l, addr := resolve(x)
+	l.(tryLocker).Unlock()
+	released(addr)
+}
+
+// RUnlock replaces X.RUnlock().
+func RUnlock(x interface{}, site int) {
+	l, addr := resolve(x)
+	l.(tryRLocker).RUnlock()
+	released(addr)
+}
+
+//go:norace
+func released(addr uintptr) {
+	if s := cur; s != nil && me() != nil {
+		s.wake(addr)
+	}
+}
